@@ -119,6 +119,7 @@ static inline uint64_t hash_step(uint64_t h, uint64_t v)
 #include <sys/time.h>
 int __real_sigaction(int signum, const struct sigaction *act, struct sigaction *old);
 
+void vt_debug_dump(void) __attribute__((weak));
 static void (*mon_watchdog_dump)(void);	/* optional: harness state for the log (diagnosis of an inconclusive case) */
 
 static void mon_watchdog_fire(int sig)
@@ -128,6 +129,8 @@ static void mon_watchdog_fire(int sig)
 	if (__real_write(mon_out_fd, m, sizeof(m) - 1) < 0) {}
 	if (mon_watchdog_dump != NULL)
 		mon_watchdog_dump();
+	if (vt_debug_dump)
+		vt_debug_dump();	/* the shim's account of who is running / blocked (weak no-op without the shim) */
 	_exit(mon_viol_case ? 3 : 2);
 }
 
